@@ -8,7 +8,7 @@ open ESV ESV.Beh
 /-- the environment of a loop body -/
 def loopEnv (env : Src.Env) (c bl : Nat) : Src.Env := { env with cont := some c, brkLoop := some bl }
 
-theorem plainEnv_loopEnv {env : Src.Env} (he : PlainEnv env) (c bl : Nat) : PlainEnv (loopEnv env c bl) := ⟨he.1, he.2⟩
+theorem plainEnv_loopEnv {cx : Cx} {env : Src.Env} (he : EnvOK cx env) (c bl : Nat) : EnvOK cx (loopEnv env c bl) := ⟨he.1, he.2, he.3⟩
 
 theorem NoNone.append {a b : List LItem} (ha : NoNone a) (hb : NoNone b) : NoNone (a ++ b) := by
   intro x hx
@@ -26,7 +26,7 @@ theorem noNone_jump (o : Op) (l : Nat) : NoNone [LItem.ljump o (some l)] := by
 theorem exitsOK_push {cx : Cx} {m j : Nat} {s : St} {env : Src.Env} (hex : ExitsOK cx m j s env) (cl bl : Nat) {c k : Nat}
     (h1 : R2 cx m j (target cx.rs cl) c) (h2 : R2 cx m j (target cx.rs bl) k) {sa : St} (hl : sa.loops = (cl, bl) :: s.loops)
     (hc : sa.cases = s.cases) : ExitsOK cx m j sa (loopEnv env c k) := by
-  refine ⟨fun cl' bl' rest hs => ?_, fun e rest hs => hex.case e rest (by rw [← hc]; exact hs)⟩
+  refine ⟨fun cl' bl' rest hs => ?_, fun e rest hs => hex.case e rest (by rw [← hc]; exact hs), hex.labs⟩
   rw [hl] at hs
   simp only [List.cons.injEq, Prod.mk.injEq] at hs
   obtain ⟨⟨rfl, rfl⟩, _⟩ := hs
@@ -39,8 +39,8 @@ theorem tr_forever (fuel : Nat) (env : Src.Env) (B : Src.Stmts) (k : Nat) (b : S
        (tbl b).length) := by
   rw [Src.tr]; rfl
 
-theorem forever_pm (cx : Cx) (fuel : Nat) (env : Src.Env) (he : PlainEnv env) (lb : Nat) (body : Stmts) (bodyM : M (List LItem))
-    (hBody : ∀ env', PlainEnv env' → PM cx bodyM (fun k b => Src.trStmts fuel [] env' (toSrcStmts body) k b) env') :
+theorem forever_pm (cx : Cx) (fuel : Nat) (env : Src.Env) (he : EnvOK cx env) (lb : Nat) (body : Stmts) (bodyM : M (List LItem))
+    (hBody : ∀ env', EnvOK cx env' → PM cx bodyM (fun k b => Src.trStmts fuel [] env' (toSrcStmts body) k b) env') :
     PM cx (foreverOf lb bodyM) (fun k b => Src.tr fuel [] env (.forever (toSrcStmts body)) k b) env := by
   intro s items s' h
   simp only [foreverOf, bind_ok, pushLoop_ok, popLoop_ok, pure_ok] at h
@@ -51,7 +51,7 @@ theorem forever_pm (cx : Cx) (fuel : Nat) (env : Src.Env) (he : PlainEnv env) (l
   obtain ⟨rfl, rfl⟩ := h5
   obtain ⟨e3, rfl⟩ := genJump_stk h3
   obtain ⟨ops, sb, sL, eB, hrun, e2, hitems⟩ := loop_block_shape h2
-  have hP : ∀ env', PlainEnv env' →
+  have hP : ∀ env', EnvOK cx env' →
       PieceOK cx ops (s.pushLoop (lb + 1, lb + 2)) sb (fun k b => Src.trStmts fuel [] env' (toSrcStmts body) k b) env' :=
     fun env' he' => hBody env' he' _ _ _ hrun
   have hP0 := hP env he
@@ -59,7 +59,7 @@ theorem forever_pm (cx : Cx) (fuel : Nat) (env : Src.Env) (he : PlainEnv env) (l
   have hstkC : sd.cases = s.cases := by rw [e3.2, e2.2, hP0.cases]; rfl
   rw [hitems]
   have htr := fun k b => tr_forever fuel env (toSrcStmts body) k b
-  have hgrow : ∀ k b, Grow b (Src.tr fuel [] env (.forever (toSrcStmts body)) k b).1 := by
+  have hgrow : ∀ k b, Grow cx.Z b (Src.tr fuel [] env (.forever (toSrcStmts body)) k b).1 := by
     intro k b
     rw [htr]
     exact ((Grow.push b _).trans ((hP _ (plainEnv_loopEnv he _ _)).grow _ _)).set_ge (Nat.le_refl _) _
@@ -68,7 +68,7 @@ theorem forever_pm (cx : Cx) (fuel : Nat) (env : Src.Env) (he : PlainEnv env) (l
     have := falls_snoc_label ([LItem.label (lb + 1) false] ++ ([LItem.label sL false] ++ ops ++ [LItem.label eB false]) ++
       [LItem.ljump ⟨sc.opc + 1, Gen.op_jump, []⟩ (some (lb + 1))]) (lb + 2) false
     simpa [List.append_assoc] using this
-  refine ⟨?_, ?_, ?_, ?_, ?_, ?_, hgrow, ?_⟩
+  refine ⟨?_, ?_, fun n id h => e3.3 n id (e2.3 n id (hP0.named n id h)), ?_, ?_, ?_, ?_, hgrow, ?_⟩
   · show sd.loops.tail = s.loops
     rw [hstkL]; rfl
   · exact hstkC
@@ -81,7 +81,8 @@ theorem forever_pm (cx : Cx) (fuel : Nat) (env : Src.Env) (he : PlainEnv env) (l
   · intro l hl
     simp only [List.append_assoc, List.cons_append, List.nil_append, loneJump_two] at hl
     cases hl
-  intro r i0 hp hpre k b hag m j hex hcont
+  intro r i0 hp hpre k b hag m j hex hin hcont
+  have hinB : NamedIn cx sb := fun n id h => hin n id (e3.3 n id (e2.3 n id h))
   have hend := hcont hfalls
   rw [htr] at hag ⊢
   simp only at hag ⊢
@@ -116,31 +117,45 @@ theorem forever_pm (cx : Cx) (fuel : Nat) (env : Src.Env) (he : PlainEnv env) (l
       [LItem.ljump ⟨sc.opc + 1, Gen.op_jump, []⟩ (some (lb + 1)), LItem.label (lb + 2) false]).length = ops.length + 5 := by
     simp
   rw [hlen] at hend
-  -- the induction over the loop
-  refine loop_ind (fun m j => ExitsOK cx m j s env ∧ R2 cx m j ⟨r, i0 + (ops.length + 5)⟩ k)
-    (fun m j m' j' h hlt => ⟨h.1.down j' hlt, h.2.down j' hlt⟩) (fun m j j' h hle => ⟨h.1.monoJ hle, h.2.monoJ hle⟩) ?_ m j ⟨hex, hend⟩
-  intro m j hyp lower lowerJ
-  refine ⟨EE_of_lower lower, ?_⟩
-  cases j with
-  | zero => exact GG_zero cx m _ _
-  | succ j =>
-    have hPh := lowerJ j (Nat.lt_succ_self j)
-    have hexj := hyp.1.monoJ (Nat.le_succ j)
-    have hendj := hyp.2.monoJ (Nat.le_succ j)
+  -- the body, given the loop head
+  have hbodyAt : ∀ m j, ExitsOK cx m j s env ∧ R2 cx m j ⟨r, i0 + (ops.length + 5)⟩ k → R2 cx m j ⟨r, i0⟩ (tbl b).length →
+      R2 cx m j ⟨r, i0 + 1⟩ (Src.trStmts fuel [] (loopEnv env (tbl b).length k) (toSrcStmts body) (tbl b).length
+        (b.push (.halt (evInvalid "loop head"))).1).2 ∧
+      LabExport cx (loopEnv env (tbl b).length k) m j (b.push (.halt (evInvalid "loop head"))).1
+        (Src.trStmts fuel [] (loopEnv env (tbl b).length k) (toSrcStmts body) (tbl b).length
+          (b.push (.halt (evInvalid "loop head"))).1).1 := by
+    intro m j hyp hPh
     have hbrk : R2 cx m j (target cx.rs (lb + 2)) k := by
       rw [htgt2]
       refine R2.silL (lab_label hitE) ?_
       have e : (⟨r, i0 + ops.length + 4⟩ : LPos).next = ⟨r, i0 + (ops.length + 5)⟩ := by
         simp only [LPos.next, LPos.mk.injEq, true_and]; omega
-      rw [e]; exact hendj
+      rw [e]; exact hyp.2
     have hex' : ExitsOK cx m j (s.pushLoop (lb + 1, lb + 2)) (loopEnv env (tbl b).length k) :=
-      exitsOK_push hexj (lb + 1) (lb + 2) (by rw [htgt1]; exact hPh) hbrk rfl rfl
+      exitsOK_push hyp.1 (lb + 1) (lb + 2) (by rw [htgt1]; exact hPh) hbrk rfl rfl
     have hafter : R2 cx m j ⟨r, i0 + 1 + ops.length + 2⟩ (tbl b).length := by
       have e : i0 + 1 + ops.length + 2 = i0 + ops.length + 3 := by omega
       rw [e]
       refine R2.silL (lab_jump hitJ jump_isJump) ?_
       rw [htgt1]; exact hPh
-    have hbody := loop_body_run cx hPe sL eB _ hpBlk (tbl b).length _ hagB m j hex' hafter
-    exact G.silB (lab_label hit0) (nodeStep_of hNh) hbody.2
+    exact loop_body_run cx hPe sL eB _ hpBlk (tbl b).length _ hagB m j hex' hinB hafter
+  -- the induction over the loop
+  have hhead : ∀ m j, ExitsOK cx m j s env ∧ R2 cx m j ⟨r, i0 + (ops.length + 5)⟩ k → R2 cx m j ⟨r, i0⟩ (tbl b).length := by
+    refine loop_ind (fun m j => ExitsOK cx m j s env ∧ R2 cx m j ⟨r, i0 + (ops.length + 5)⟩ k)
+      (fun m j m' j' h hlt => ⟨h.1.down j' hlt, h.2.down j' hlt⟩) (fun m j j' h hle => ⟨h.1.monoJ hle, h.2.monoJ hle⟩) ?_
+    intro m j hyp lower lowerJ
+    refine ⟨EE_of_lower lower, ?_⟩
+    cases j with
+    | zero => exact GG_zero cx m _ _
+    | succ j =>
+      have hPh := lowerJ j (Nat.lt_succ_self j)
+      have hbody := (hbodyAt m j ⟨hyp.1.monoJ (Nat.le_succ j), hyp.2.monoJ (Nat.le_succ j)⟩ hPh).1
+      exact G.silB (lab_label hit0) (nodeStep_of hNh) hbody.2
+  have hP' := hhead m j ⟨hex, hend⟩
+  refine ⟨hP', ?_⟩
+  have hexp := (hbodyAt m j ⟨hex, hend⟩ hP').2
+  have hpush := Pushes.push b (.halt (evInvalid "loop head"))
+  refine LabExport.mono hexp hpush.len (fun i hi => hpush.same hi) (fun i hi => ?_)
+  rw [tbl_set, List.getElem?_set_ne (by omega)]
 
 end ESV.Comp
